@@ -49,6 +49,8 @@ class Ticket:
         self.gate = threading.Event()
         self.node = None
         self.handle = None
+        self.entered = False      # a worker thread has picked the work item up
+        self.stalled = False      # ... or has not, although the scheduler already waits for it
 
 
 class Script:
@@ -142,6 +144,7 @@ def _submit(self, fn, *a, **k):
         R.ev("dispatch", t.id, "thread")
 
     def wrapped(*aa, **kk):
+        t.entered = True
         tls.ticket = t
         tls.run = R
         try:
@@ -178,6 +181,43 @@ def _expire(R):
     return R.expired_in_a_row <= EXPIRY_LIMIT
 
 
+STALL_S = 2.0
+
+
+def _pending(R, fs):
+    return [t for t in R.tickets if t.handle in fs and not t.entered and not t.stalled and not t.handle.done()]
+
+
+def _mark_stalled(R, pend):
+    """Work items the scheduler handed to its pool that no worker has picked up although the scheduler already waits:
+    the pool is smaller than the number of nodes the scheduler believes to be running."""
+    if pend:
+        R.ev("stalled", tuple(sorted(t.id for t in pend)))
+        for t in pend:
+            t.stalled = True
+            t.gate.set()        # whenever it finally runs, it must not block the rest of the run
+
+
+def _settle(R, fs):
+    import time as _time
+    t0 = _time.time()
+    while True:
+        pend = _pending(R, fs)
+        if not pend or _time.time() - t0 > STALL_S:
+            return _mark_stalled(R, pend)
+        _time.sleep(0.001)
+
+
+async def _asettle(R, fs):
+    import time as _time
+    t0 = _time.time()
+    while True:
+        await asyncio.sleep(0 if _time.time() - t0 < 0.01 else 0.001)      # let the submitted coroutines reach the pool
+        pend = _pending(R, fs)
+        if not pend or _time.time() - t0 > STALL_S:
+            return _mark_stalled(R, pend)
+
+
 def _choose(R, fs, mode):
     live = [t for t in R.tickets if t.handle in fs and not t.gate.is_set()]
     return R.script.choose(live, mode == cf.ALL_COMPLETED)
@@ -199,8 +239,9 @@ def _wait(fs, timeout=None, return_when=cf.ALL_COMPLETED):
         return _real_wait(fs, 0, return_when)
     R.expired_in_a_row = 0
     timeout = None
+    _settle(R, fs)
     # tickets released early (while an inline node ran) are done already: this wait reports them whatever else it does
-    already = [t for t in R.tickets if t.handle in fs and t.gate.is_set()]
+    already = [t for t in R.tickets if t.handle in fs and t.gate.is_set() and not t.stalled]
     chosen = [] if (already and return_when != cf.ALL_COMPLETED) else _choose(R, fs, return_when)
     R.ev("wait", "conc", return_when,
          tuple(sorted(t.id for t in R.tickets if t.handle in fs)), tuple(sorted(t.id for t in chosen + already)))
@@ -225,6 +266,7 @@ async def _await(fs, *, timeout=None, return_when=asyncio.ALL_COMPLETED):
         return await _real_await(fs, timeout=0, return_when=return_when)
     R.expired_in_a_row = 0
     timeout = None
+    await _asettle(R, fs)
     chosen = _choose(R, fs, return_when)
     R.ev("wait", "async", return_when,
          tuple(sorted(t.id for t in R.tickets if t.handle in fs)), tuple(sorted(t.id for t in chosen)))
@@ -302,6 +344,9 @@ def run_controlled(fn, script, timeout=40):
         hung = th.is_alive()
         if hung:
             R.dead = True       # its threads are killed at their next call of a patched primitive
+        else:
+            # the call is over: every work item it handed to a pool must have been picked up by a worker by now
+            _settle(R, {t.handle for t in R.tickets if t.handle is not None})
         R.open_all()
         if hung:
             th.join(5)
